@@ -42,6 +42,16 @@ func loadAll() (*Program, error) {
 	}
 	p.Cs = cs
 	p.Spec = spec
+	rules, err := p.extractTokenRules()
+	if err != nil {
+		return nil, err
+	}
+	p.Rules = rules
+	for _, name := range sortedKeys(rules) {
+		if err := spec.AddLib("re_"+name, rules[name].smt()); err != nil {
+			return nil, err
+		}
+	}
 	return p, nil
 }
 
